@@ -47,7 +47,9 @@ TrReturn == /\ IsEvent("SfReturn")
             /\ Return(R.actor)
             /\ ret'[R.actor] = <<R.class, R.val>>
 
-TraceNext == TrReset \/ TrGetCall \/ TrGetFuture \/ TrTaskRun \/ TrComplete \/ TrRemove \/ TrReturn
+\* a crowd on one key while its task runs (more callers than a 16-bit counter holds): one run, everybody served
+TrCrowd == IsEvent("SfCrowd") /\ R.task_runs = 1 /\ R.returned = R.callers /\ R.hung = 0 /\ R.wrong = 0 /\ UNCHANGED vars
+TraceNext == TrReset \/ TrGetCall \/ TrGetFuture \/ TrTaskRun \/ TrComplete \/ TrRemove \/ TrReturn \/ TrCrowd
 TraceSpec == TraceInit /\ [][TraceNext]_tvars
 
 TraceAccepted ==
